@@ -1,17 +1,16 @@
 SPECIFICATION Spec
 CONSTANTS
-  Addr <- AddrRestart
-  Gaps <- GapsRestartF
+  Addr <- Addr2
+  Gaps <- GapsFixed2
   T = 10
-  D = 0
-  MaxEvents = 4
-  MaxFails = 1
+  D = 1
+  MaxEvents = 3
+  MaxFails = 2
   Backoff = TRUE
-  Closed = FALSE
-  ObserveCb = FALSE
-  TrackQuiet = FALSE
+  Closed = TRUE
+  ObserveCb = TRUE
+  TrackQuiet = TRUE
   UnitMs = 1000
 INVARIANTS TypeOK Converged LearnsLive ForgetsDead SelfListed PeriodRestored NoDuplicateAddr ChannelSane
 PROPERTIES CallbackIffChange NoResurrection
-ACTION_CONSTRAINT Dump
 VIEW View
